@@ -35,7 +35,7 @@ func genC11Storm(t *rapid.T) C11Case {
 	c := C11Case{Kind: "storm", QLen: genQLen(t), IDs: []uint32{1}}
 	c.Failure.Kind = "storm"
 	g := rapid.Custom(func(t *rapid.T) C11StormRound {
-		n := rapid.SampledFrom([]int{8, 16, 32, 32, 48, 64}).Draw(t, "n")
+		n := rapid.SampledFrom([]int{16, 32, 32, 48, 64, 64}).Draw(t, "n")
 		return C11StormRound{N: n,
 			Readers:  rapid.IntRange(0, n).Draw(t, "readers"),
 			MuxClose: rapid.SampledFrom([]string{"local", "local", "peer", "cut"}).Draw(t, "mux"),
@@ -43,7 +43,7 @@ func genC11Storm(t *rapid.T) C11Case {
 			Side:     rapid.IntRange(0, 1).Draw(t, "side"),
 			KeepOpen: rapid.SampledFrom([]int{0, 0, 1, 4}).Draw(t, "keep")}
 	})
-	c.Storm = &C11Storm{Rounds: rapid.SliceOfN(g, 8, tierPick(20, 40)).Draw(t, "storm_rounds")}
+	c.Storm = &C11Storm{Rounds: rapid.SliceOfN(g, 12, tierPick(24, 40)).Draw(t, "storm_rounds")}
 	c.Delays = genDelays(t, 3)
 	return c
 }
